@@ -42,6 +42,7 @@ def main():
         for s in range(4 if tier == "quick" else 10):
             jobs.append(dict(seed="%d/%s/%s/%d" % (common.seed(), PROP, be, s), backend=be, n=n, scripts=1 if tier == "quick" else 3))
     R = common.Run(PROP, "translation_validation", RULE)
+    boot.spread_pyflags(jobs)
     for job, res, err in shard.run_jobs("vf.checks.C11", "worker", jobs, timeout=3600, nproc=16, shims=("flatbuffers",)):
         if err:
             R.inconc("worker %s: %s" % (job["seed"], err))
@@ -170,6 +171,9 @@ def worker(job):
     rt = realrun.attach_real(be)
     realrun.install_boundary(rt)
     R = common.Run(PROP, "translation_validation", RULE)
+    import sys as _sys
+    if _sys.flags.optimize:
+        R.count("workers_under_python_O%s" % ("O" if _sys.flags.optimize > 1 else ""))
     import flatbuffers
     R.count("flatbuffers_standin" if getattr(flatbuffers, "__vf_standin__", False) else "flatbuffers_real")
     st = zkif.selftest()
@@ -296,7 +300,7 @@ def worker(job):
         try:
             script = "from pysnark.runtime import *\nfrom pysnark.boolean import *\nfrom pysnark.branching import if_then_else\nI = %r\n%s\n" % (inputs, src)
             open(os.path.join(wd, "prog.py"), "w").write(script)
-            pr = subprocess.run([boot.PY, "prog.py"], cwd=wd, env=boot.child_env({"PYSNARK_BACKEND": be}, shims=("flatbuffers",)),
+            pr = subprocess.run([boot.PY] + boot.pyflags() + ["prog.py"], cwd=wd, env=boot.child_env({"PYSNARK_BACKEND": be}, shims=("flatbuffers",)),
                                 stdout=subprocess.PIPE, stderr=subprocess.PIPE, timeout=120)
             if pr.returncode == 0 and os.path.exists(os.path.join(wd, "circuit.zkif")):
                 blobs.append((inputs, open(os.path.join(wd, "circuit.zkif"), "rb").read(), open(os.path.join(wd, "computation.zkif"), "rb").read()))
@@ -320,7 +324,7 @@ def worker(job):
                       "json.dump(dict(p=_b.get_modulus(), pubvals=[int(v) for v in _b.pubvals], privvals=[int(v) for v in _b.privvals],\n"
                       "    constraints=[[sorted(x.lc.items()) for x in c] for c in _b.constraints]), open('trace.json', 'w'))\n") % (inputs, src)
             open(os.path.join(wd, "prog.py"), "w").write(script)
-            pr = subprocess.run([boot.PY, "prog.py"], cwd=wd, env=boot.child_env({"PYSNARK_BACKEND": be}, shims=("flatbuffers",)),
+            pr = subprocess.run([boot.PY] + boot.pyflags() + ["prog.py"], cwd=wd, env=boot.child_env({"PYSNARK_BACKEND": be}, shims=("flatbuffers",)),
                                 stdout=subprocess.PIPE, stderr=subprocess.PIPE, timeout=120)
             if pr.returncode != 0 or not os.path.exists(os.path.join(wd, "trace.json")):
                 R.count("script_raised")
